@@ -18,6 +18,24 @@ import z3
 _cache: dict = {}
 
 
+def _has_ite(e) -> bool:
+    if z3.is_app(e):
+        if e.decl().kind() == z3.Z3_OP_ITE:
+            return True
+        return any(_has_ite(c) for c in e.children())
+    return False
+
+
+def forall(vs, body, patterns=None, **kw):
+    """z3.ForAll that falls back to inferred triggers when a pattern is rejected."""
+    if patterns and not any(_has_ite(p) for p in patterns):
+        try:
+            return z3.ForAll(vs, body, patterns=patterns, **kw)
+        except z3.Z3Exception:
+            pass
+    return z3.ForAll(vs, body, **kw)
+
+
 class Ty:
     name = "?"
 
@@ -390,13 +408,13 @@ def list_axioms(ty: TList) -> list:
     el, pos = ty.elems_fn(), ty.pos_fn()
     ax = [
         # every stored element is a member
-        z3.ForAll(
+        forall(
             [L, j],
             z3.Implies(z3.And(0 <= j, j < ty.len(L)), z3.Select(el(L), z3.Select(ty.arr(L), j))),
             patterns=[z3.Select(ty.arr(L), j)],
         ),
         # every member has a position
-        z3.ForAll(
+        forall(
             [L, x],
             z3.Implies(
                 z3.Select(el(L), x),
@@ -412,5 +430,5 @@ def set_axioms(ty: TSet) -> list:
     S = z3.Const("S!ax", ty.sort())
     card = ty.card_fn()
     return [
-        z3.ForAll([S], z3.And(card(S) >= 0, (card(S) == 0) == (S == ty.empty())), patterns=[card(S)]),
+        forall([S], z3.And(card(S) >= 0, (card(S) == 0) == (S == ty.empty())), patterns=[card(S)]),
     ]
